@@ -24,6 +24,13 @@ type pin struct {
 }
 
 func seedCache(ctx context.Context, inp seedInput) ([]pin, error) {
+	pins, _, err := seedCacheKeys(ctx, inp, bufmodule.DigestTypeB5)
+	return pins, err
+}
+
+// seedCacheKeys is seedCache for a digest type (b4 for the v1 buf.lock of a buf.work.yaml workspace); it also
+// returns the module keys so that the lock file can be written with the real writer.
+func seedCacheKeys(ctx context.Context, inp seedInput, digestType bufmodule.DigestType) ([]pin, []bufmodule.ModuleKey, error) {
 	var datas []bufmoduletesting.ModuleData
 	created := time.Date(2024, 1, 2, 3, 4, 5, 0, time.UTC)
 	toData := func(m seedModule) bufmoduletesting.ModuleData {
@@ -45,57 +52,59 @@ func seedCache(ctx context.Context, inp seedInput) ([]pin, error) {
 	}
 	omni, err := bufmoduletesting.NewOmniProvider(datas...)
 	if err != nil {
-		return nil, err
+		return nil, nil, err
 	}
 	for _, d := range []string{"v3/modules", "v3/modulelocks", "v3/commits"} {
 		if err := os.MkdirAll(filepath.Join(inp.CacheDir, filepath.FromSlash(d)), 0o755); err != nil {
-			return nil, err
+			return nil, nil, err
 		}
 	}
 	modBucket, err := storageos.NewProvider().NewReadWriteBucket(filepath.Join(inp.CacheDir, "v3", "modules"))
 	if err != nil {
-		return nil, err
+		return nil, nil, err
 	}
 	locker, err := filelock.NewLocker(filepath.Join(inp.CacheDir, "v3", "modulelocks"))
 	if err != nil {
-		return nil, err
+		return nil, nil, err
 	}
 	commitBucket, err := storageos.NewProvider().NewReadWriteBucket(filepath.Join(inp.CacheDir, "v3", "commits"))
 	if err != nil {
-		return nil, err
+		return nil, nil, err
 	}
 	dataStore := bufmodulestore.NewModuleDataStore(bufx.Logger, modBucket, locker)
 	commitStore := bufmodulestore.NewCommitStore(bufx.Logger, commitBucket)
 	var pins []pin
+	var allKeys []bufmodule.ModuleKey
 	for _, m := range inp.Modules {
 		parts := strings.Split(m.Name, "/")
 		ref, err := bufparse.NewRef(parts[0], parts[1], parts[2], "")
 		if err != nil {
-			return nil, err
+			return nil, nil, err
 		}
-		keys, err := omni.GetModuleKeysForModuleRefs(ctx, []bufparse.Ref{ref}, bufmodule.DigestTypeB5)
+		keys, err := omni.GetModuleKeysForModuleRefs(ctx, []bufparse.Ref{ref}, digestType)
 		if err != nil {
-			return nil, err
+			return nil, nil, err
 		}
 		mds, err := omni.GetModuleDatasForModuleKeys(ctx, keys)
 		if err != nil {
-			return nil, err
+			return nil, nil, err
 		}
 		if err := dataStore.PutModuleDatas(ctx, mds); err != nil {
-			return nil, err
+			return nil, nil, err
 		}
 		commits, err := omni.GetCommitsForModuleKeys(ctx, keys)
 		if err != nil {
-			return nil, err
+			return nil, nil, err
 		}
 		if err := commitStore.PutCommits(ctx, commits); err != nil {
-			return nil, err
+			return nil, nil, err
 		}
 		digest, err := keys[0].Digest()
 		if err != nil {
-			return nil, err
+			return nil, nil, err
 		}
+		allKeys = append(allKeys, keys[0])
 		pins = append(pins, pin{Name: m.Name, Commit: strings.ReplaceAll(keys[0].CommitID().String(), "-", ""), Digest: digest.String()})
 	}
-	return pins, nil
+	return pins, allKeys, nil
 }
